@@ -12,6 +12,7 @@ PROP = 'C19'
 KF = 'F-JINJA-COMMENT-STAR'
 KF2 = 'F-JINJA-AUTOINDENT-NONSTR'
 KF3 = 'F-JINJA-AUTOINDENT-SCOPE'
+KF4 = 'F-JINJA-MARKER-DELIM'
 
 MANIFEST = dict(
     category='proof',
@@ -96,7 +97,8 @@ ASP = {'block_start_string': '<%', 'block_end_string': '%>', 'variable_start_str
 LS = {'line_statement_prefix': '%%', 'line_comment_prefix': '##'}
 ORACLE_OPTS = [{}, {}, {}, LS, ASP]
 COMBOS = [{}, {'lstrip_blocks': True}, {'trim_blocks': True}, {'lstrip_blocks': True, 'trim_blocks': True}, dict(LS),
-          dict(LS, lstrip_blocks=True, trim_blocks=True), dict(ASP), dict(ASP, lstrip_blocks=True, trim_blocks=True)]   # = gen_c19.COMBOS
+          dict(LS, lstrip_blocks=True, trim_blocks=True), dict(ASP), dict(ASP, lstrip_blocks=True, trim_blocks=True),
+          {'block_start_string': '<*', 'block_end_string': '*>', 'variable_start_string': '\\VAR{', 'variable_end_string': '}'}]   # = gen_c19.COMBOS
 OPT_ATOMS = ['{%', '{{', '{#', '%}', '}}', '#}', '{%-', '{#-', '{{-', '-%}', '-#}', '-}}', '{%+', '{#+', '{%*', '{{*', '{#*',
              ' ', '  ', '\t', '\n', '\n', '\n  ', '\n\t', 'a', 'x', '1', '"', '(', ')', '*', '-', '+', '%', '#', '{', '}',
              '{% raw %}', '{%- raw -%}', '{%+ raw %}', '{% endraw %}', '{%- endraw %}', '{%+ endraw %}', '\n    {% endraw %}', '\n  {% raw %}',
@@ -117,10 +119,10 @@ def gen_source_opts(rng, opts: dict) -> str:
 
 
 def to_delims(text: str, opts: dict) -> str:
-    if 'block_start_string' not in opts:
+    if not any(k.endswith('_string') for k in opts):
         return text
-    for a, b in (('{%', opts['block_start_string']), ('%}', opts['block_end_string']), ('{{', opts['variable_start_string']),
-                 ('}}', opts['variable_end_string']), ('{#', opts['comment_start_string']), ('#}', opts['comment_end_string'])):
+    for a, b in (('{%', opts.get('block_start_string', '{%')), ('%}', opts.get('block_end_string', '%}')), ('{{', opts.get('variable_start_string', '{{')),
+                 ('}}', opts.get('variable_end_string', '}}')), ('{#', opts.get('comment_start_string', '{#')), ('#}', opts.get('comment_end_string', '#}'))):
         text = text.replace(a, '\0' + b + '\0')
     return text.replace('\0', '')
 
@@ -213,7 +215,7 @@ def gen_autoindent(rng):
     post = rng.choice(['', '|', '\ntail', ';\n', '\n\nz'])
     nl = rng.choice(['\n', '\n', '\r\n'])
     ctx = {'x': rng.choice(VALUES), 'xs': [rng.choice(VALUES) for _ in range(rng.randrange(0, 4))], 'c': rng.random() < 0.8}
-    kind = rng.choice(['var', 'var', 'varf', 'tuple', 'int', 'bind', 'if', 'for', 'include', 'set', 'filter', 'call', 'minus'])
+    kind = rng.choice(['var', 'var', 'varf', 'tuple', 'int', 'if', 'for', 'include', 'set', 'filter', 'call', 'minus'])
     inc = {}
     if kind == 'var':
         cons = ('{{', ' x }}')
@@ -245,6 +247,89 @@ def gen_autoindent(rng):
     marker_t = dict(inc, main=pre + ws + opener + '*' + tail + post)
     plain_t = dict(inc, main=opener + tail)
     return {'kind': kind, 'marker': marker_t, 'plain': plain_t, 'pre': pre, 'ws': ws, 'post': post, 'ctx': ctx, 'opener': opener}
+
+
+# ---------------------------------------------------------------------------------------------
+# (2c) the pipeline model Gen/JinjaMini.v (scan -> wrap -> subparse -> render with a context) against the bundled engine
+# ---------------------------------------------------------------------------------------------
+class MiniGen:
+    """templates of the mini language of Gen/JinjaMini.v: text, {{ p }}, set, if/else, for -- each optionally under the marker"""
+
+    def __init__(self, rng, markers: bool):
+        self.rng, self.markers = rng, markers
+
+    def prim(self) -> str:
+        return self.rng.choice(['x', 'y', 'n', 's', 'c', 'i', 'u', 'z', '7', '0', '"ab"', '""', 'xs'])
+
+    def star(self) -> str:
+        return '*' if self.markers and self.rng.random() < 0.45 else ''
+
+    def indent(self, star: str) -> str:
+        r = self.rng
+        if star:
+            return r.choice(['', '\n', 'a\n']) + ''.join(r.choice([' ', ' ', '\t']) for _ in range(r.choice([0, 1, 2, 4])))
+        return r.choice(['', '', ' ', '\n  '])
+
+    def node(self, d: int) -> str:
+        r = self.rng
+        k = r.randrange(9 if d < 2 else 4)
+        if k == 0:
+            return r.choice(['a', 'b\n', ';', ' ', '\n', 'T ', '* ', '}', '{'])
+        if k in (1, 2):
+            st = self.star()
+            return self.indent(st) + '{{' + st + (' ' if st else r.choice([' ', '- '])) + self.prim() + ' }}'
+        if k == 3 or k == 4:
+            st = self.star()
+            return self.indent(st) + '{%' + st + ' set ' + r.choice(['y', 'z']) + ' = ' + self.prim() + ' %}'
+        if k in (5, 6):
+            st = self.star()
+            s_ = self.indent(st) + '{%' + st + ' if ' + self.prim() + ' %}' + self.body(d + 1)
+            if r.random() < 0.5:
+                s_ += '{% else %}' + self.body(d + 1)
+            return s_ + '{% endif %}'
+        st = self.star()
+        return self.indent(st) + '{%' + st + ' for i in ' + r.choice(['xs', 'xs', 'u']) + r.choice([' %}', ' -%}']) + self.body(d + 1) + '{% endfor %}'
+
+    def body(self, d: int) -> str:
+        return ''.join(self.node(d) for _ in range(self.rng.randrange(0, 4)))
+
+    def template(self) -> str:
+        return ''.join(self.node(0) for _ in range(self.rng.randrange(1, 6))).rstrip('\n')
+
+
+def mini_ctx(rng) -> dict:
+    return {'x': rng.choice(['L1\nL2', 'one', '', 'a\n\nb\n', 3]), 'n': rng.randrange(0, 50), 's': rng.choice(['str', '', 'p\nq']),
+            'c': rng.choice([0, 1]), 'xs': rng.choice([[1, 2, 3], [], [10, 0]])}
+
+
+def mini_ctx_enc(ctx: dict) -> str:
+    out = []
+    for k, v in ctx.items():
+        if isinstance(v, int):
+            out.append('%s~I%d' % (enc(k), v))
+        elif isinstance(v, str):
+            out.append('%s~S%s' % (enc(k), enc(v)))
+        else:
+            out.append('%s~L%s' % (enc(k), '.'.join(map(str, v)) or 'e'))
+    return ','.join(out) or '-'
+
+
+def visits_of(toks) -> typing.Optional[str]:
+    out, i = [], 0
+    while i < len(toks):
+        k, _v = toks[i]
+        i += 1
+        if k in TAG_END:
+            n, inner = 0, []
+            while i < len(toks):
+                k2, v2 = toks[i]
+                i += 1
+                n += len(v2)
+                inner.append('%s/%s' % (enc(k2), enc(v2)))
+                if k2 == TAG_END[k]:
+                    break
+            out.append('%d|%s' % (n, ','.join(inner)))
+    return ';'.join(out) or '-'
 
 
 # ---------------------------------------------------------------------------------------------
@@ -545,6 +630,7 @@ def main(chk: core.Check, replay: typing.Optional[str] = None) -> int:
     quick = chk.tier == 'quick'
     n_lex = 2500 if quick else 30000
     n_lex2 = 2500 if quick else 30000
+    n_mini = 700 if quick else 7000
     n_lp = 1200 if quick else 12000
     n_ai = 300 if quick else 3000
     n_ext = 200 if quick else 2000
@@ -563,6 +649,9 @@ def main(chk: core.Check, replay: typing.Optional[str] = None) -> int:
         'correspondence runs below, not verified against CPython / the tokeniter loop',
         'extraction: Require Extraction ExtrOcamlBasic only; OCaml 4.13.1; ocaml/c19_driver.ml',
         'whole-engine equivalence bundled vs. stock: differential execution only (no theorem)',
+        'vendored copy (jinja2 + markupsafe, 774 shape digests): baseline = the tree itself (upstream 2.11 commit of /repo/subtree.json not available offline); the '
+        'documented-delta list is self-evidenced (derived from markers / git log of the same tree): completeness of the modification set is NOT verified',
+        'pipeline model Gen/JinjaMini.v: tag-internal tokens are taken from the real lexer (unmodified states); mini language only (primaries, if/else, set, for)',
     ])
     broken: typing.List[str] = []
     if not res.ok:
@@ -613,6 +702,14 @@ def main(chk: core.Check, replay: typing.Optional[str] = None) -> int:
         kf3_live = r3[0].get('b', {}).get('ok') == w3['bundled'] and r3[1].get('s', {}).get('ok') == w3['plain_output']
         if kf3_live:
             chk.report_known(KF3)
+
+    kf4_live = False
+    if chk.is_known(KF4):
+        w4 = chk.known_entry(KF4)['witness']
+        r4 = run_impl('diff', [{'templates': {'main': w4['template']}, 'main': 'main', 'ctx': {}, 'opts': w4['opts']}])[0]
+        kf4_live = r4.get('b', {}).get('ok') == w4['bundled'] and r4.get('s', {}).get('ok') == w4['stock'] and w4['bundled'] != w4['stock']
+        if kf4_live:
+            chk.report_known(KF4)
 
     def kf_trigger(text: str) -> bool:
         """a comment opener directly followed by `*`"""
@@ -753,6 +850,66 @@ def main(chk: core.Check, replay: typing.Optional[str] = None) -> int:
             bad_oracle.append({'level': 'lexer under options', 'source': c['src'], 'opts': c['opts'], 'bundled': eb, 'stock': es})
     samples += o_cases[len(OPT_CORPUS):len(OPT_CORPUS) + 4]
 
+    # ---- 2c. the extracted PIPELINE model (Gen/JinjaMini.v: scan -> wrap -> subparse with nested bodies -> render with a context;
+    #          marker decision = what the code in /repo does now) vs. the bundled engine, all regenerated option combinations,
+    #          marker and marker-free templates incl. set / if / for under the marker; conservativity oracle on the marker-free ones
+    m_cases = []
+    for _ in range(n_mini):
+        ci = rng.randrange(len(COMBOS))
+        o = dict(COMBOS[ci])
+        g = MiniGen(rng, markers=rng.random() < 0.7)
+        src = to_delims(g.template(), o)
+        m_cases.append({'ci': ci, 'templates': {'main': src}, 'main': 'main', 'ctx': mini_ctx(rng), 'opts': o, 'src': src})
+    m_lex = run_impl('lex', [{'src': c['src'], 'opts': c['opts']} for c in m_cases])
+    m_diff = run_impl('diff', m_cases)
+    m_lines, m_idx = [], []
+    for j, (c, lx) in enumerate(zip(m_cases, m_lex)):
+        if 'harness_failure' in lx or lx['b']['err']:
+            continue
+        o = c['opts']
+        sv = enc(o.get('variable_start_string', '{{'))
+        sb = ','.join(enc(x) for x in [o.get('block_start_string', '{%'), o.get('line_statement_prefix')] if x)
+        v = visits_of(lx['b']['toks'])
+        m_lines.append('P B %d %s %s %s %s %s' % (c['ci'], sv, sb, enc(c['src']), mini_ctx_enc(c['ctx']), v))
+        m_lines.append('P U %d %s %s %s %s %s' % (c['ci'], sv, sb, enc(c['src']), mini_ctx_enc(c['ctx']), v))
+        m_idx.append(j)
+    m_out = run_model(exe, m_lines) if ok_model else []
+    for n_, j in enumerate(m_idx):
+        c, r = m_cases[j], m_diff[j]
+        o = c['opts']
+        bump('mini_cases')
+        bump('mini_combo_%d' % c['ci'])
+        got = r.get('b', {})
+        starts = [o.get('variable_start_string', '{{'), o.get('block_start_string', '{%')] + ([o['line_statement_prefix']] if o.get('line_statement_prefix') else [])
+        uses_marker = any(st + '*' in c['src'] for st in starts)
+        bump('mini_with_marker', uses_marker)
+        mb_ = mu_ = None
+        if ok_model:
+            mb_, mu_ = m_out[2 * n_], m_out[2 * n_ + 1]
+            exp = ('OK ' + enc(got['ok'])) if 'ok' in got else 'ERR'
+            bump('traces_pipeline_model')
+            if mb_ != exp:
+                bad_model.append({'tie': 'Gen/JinjaMini.v mini_bundled (pipeline model) vs bundled render', 'case': c, 'model': (dec(mb_[3:]) if mb_.startswith('OK ') else mb_),
+                                  'implementation': got})
+            elif 'ok' in got and got['ok'] and uses_marker:
+                distinct.add(('mini', c['src'], json.dumps(c['ctx'], sort_keys=True)))
+        if not uses_marker:
+            # the property's oracle: a template without the marker renders as in stock Jinja2
+            bump('mini_oracle_compared')
+            if not same(got, r.get('s', {})):
+                quirk_reproduced = (ok_model and kf4_live and mb_ == (('OK ' + enc(got['ok'])) if 'ok' in got else 'ERR')
+                                    and 'ok' in r.get('s', {}) and mu_ == 'OK ' + enc(r['s']['ok']))
+                d2_trigger = any(st.endswith('*') for st in starts)
+                if quirk_reproduced:
+                    bump('known_finding_instances_marker_delim')
+                elif kf4_live and d2_trigger and not ok_model:
+                    # the model is not available (broken obligation): a known-finding instance can be neither confirmed nor refuted;
+                    # it is not offered as THE failing input of an unrelated breakage
+                    bump('mini_oracle_unclassified_model_unavailable')
+                else:
+                    bad_oracle.append({'level': 'marker-free template under options', 'case': c, 'bundled': got, 'stock': r.get('s')})
+    samples += [{'mini': c['src'], 'opts': c['opts'], 'ctx': c['ctx']} for c in m_cases[:4]]
+
     # ---- 3. lineprefix and auto-indent rendering vs. the model ------------------------------------------------
     lps = [['a\r\n\nb\n', '  '], ['', ' '], ['\n', 'p'], ['a\n\n', '\t'], ['x', ''], ['a\x0bb\x0cc\x1cd\x85e\u2028f', '>']] + [gen_lp(rng) for _ in range(n_lp)]
     impl_lp = run_impl('lineprefix', lps)
@@ -796,8 +953,6 @@ def main(chk: core.Check, replay: typing.Optional[str] = None) -> int:
         got = r_marker[i].get('ok')
         if got != expected and kf2_live and a['kind'] in ('tuple', 'int') and r_marker[i].get('err') == 'AttributeError':
             bump('known_finding_instances_autoindent_nonstr')     # trigger: the value of the marker print statement is not a str
-        elif got != expected and kf3_live and a['kind'] == 'bind':
-            bump('known_finding_instances_autoindent_scope')      # trigger: marker block statement binds a name used after it
         elif got != expected:
             bad_oracle.append({'level': 'autoindent', 'case': {k: a[k] for k in ('marker', 'plain', 'ctx', 'ws', 'kind')}, 'implementation': r_marker[i],
                                'expected': expected})
@@ -982,7 +1137,7 @@ def main(chk: core.Check, replay: typing.Optional[str] = None) -> int:
 
     chk.coverage.update({
         'evaluations': stats.get('lex_sources', 0) + stats.get('lineprefix_cases', 0) + stats.get('autoindent_cases', 0) + stats.get('ext_cases', 0)
-        + stats.get('diff_templates', 0) + stats.get('lexopt_sources', 0) + stats.get('seq_cases', 0),
+        + stats.get('diff_templates', 0) + stats.get('lexopt_sources', 0) + stats.get('seq_cases', 0) + stats.get('mini_cases', 0),
         'distinct_nontrivial': len(distinct),
         'rule': 'distinct cases among: lexer sources containing a marker on which the bundled and stock scanner models differ; lineprefix inputs '
                 'with more than one line that the filter changes; auto-indent templates with a non-empty blank run and a multi-line construct; '
